@@ -1260,8 +1260,34 @@ def gen_c18(tier, seed):
                 regs2[0] = a | hi
                 regs2[3] = b | (0 if sz == 4 else (r.randrange(1 << 32) & ~((1 << (8 * sz)) - 1)))
                 memv = [(DATA + 0x40, be(a, sz)), (DATA + 0x80, be(b, sz))]
+
+                def memform(addr, rb, slot):
+                    # the memory operand through every addressing mode, negative displacements included
+                    import asm as _asm
+                    k = r.randrange(9)
+                    ptr = DATA + 0x1c0 + 8 * slot
+                    if k == 0:
+                        return absa(addr), {}, []
+                    if k == 1:
+                        return regdef(rb), {rb: addr}, []
+                    if k == 2:
+                        return _asm.bdisp(rb, (-8) & 0xff), {rb: addr + 8}, []
+                    if k == 3:
+                        return _asm.hdisp(rb, (-0x200) & 0xffff), {rb: addr + 0x200}, []
+                    if k == 4:
+                        return wdisp(rb, (-0x12340) & 0xffffffff), {rb: addr + 0x12340}, []
+                    if k == 5:
+                        return bdispdef(rb, (-4) & 0xff), {rb: ptr + 4}, [(ptr, be(addr, 4))]
+                    if k == 6:
+                        return hdispdef(rb, (-0x200) & 0xffff), {rb: ptr + 0x200}, [(ptr, be(addr, 4))]
+                    if k == 7:
+                        return wdispdef(rb, (-0x8000) & 0xffffffff), {rb: ptr + 0x8000}, [(ptr, be(addr, 4))]
+                    return absdef(ptr), {}, [(ptr, be(addr, 4))]
+                ma, ra, xa = memform(DATA + 0x40, 6, 0)
+                mb, rb_, xb = memform(DATA + 0x80, 7, 1)
+                regs2.update(ra); regs2.update(rb_)
                 pair('value:%d' % sz, ins(OP[base + sfx + '2'], reg(0), reg(3)),
-                     ins(OP[base + sfx + '2'], absa(DATA + 0x40), absa(DATA + 0x80)), regs2, memv, 1, 1)
+                     ins(OP[base + sfx + '2'], ma, mb), regs2, memv + xa + xb, 1, 1)
         for _ in range(n * 3):
             v = pick(sz)
             d = r.choice(dst_forms(r, sz, v, 0))
